@@ -41,6 +41,17 @@ TIERS = {
 }
 VARIANTS = {"quick": 2, "thorough": 6}
 
+# Non-vacuity of the binding: for these (entry, phase) the genuine message of the template is what the endpoint expects
+# next (or has an unconditional observable effect: delivery to a listener, acceptance of the description, an answered
+# sentinel); if it shows no effect, the harness no longer reaches the code and the run is void (tool error).
+IN_PHASE = {
+    ("dtls_server", "pre"): ["dg.clienthello"], ("dtls_client", "mid"): ["dg.serverhello", "dg.cert", "dg.ske", "dg.shd"],
+    ("dtls_server", "est"): ["dg.opaque"], ("dtls_client", "est"): ["dg.opaque"],
+    ("sctp", "pre"): ["sctp.init", "sctp.init_ack"], ("sctp", "mid"): ["sctp.cookie_echo", "sctp.cookie_ack"],
+    ("sctp", "est"): ["sctp.data", "sctp.sack", "sctp.heartbeat"],
+}
+ALWAYS_EFFECT = {"rtp_transport", "pc_sdp", "pc_candidate", "ice_udp", "turn_udp", "pc_rtp"}
+
 OK_RES = {"value", "error"}
 # inapplicable: the class has no concrete instance on the genuine message; unreachable: the history (an earlier input,
 # then genuine progress) does not exist on the implementation because the earlier input was acted upon
@@ -139,6 +150,8 @@ def classify(ck, rows, case_rows, stats):
                 raise vlib.ToolError(f"genuine {r['tpl']} does not conform to its grammar table: {r['detail']}")
             if r["res"] != "value":
                 raise vlib.ToolError(f"genuine {r['tpl']} is not accepted by {r['entry']} {r.get('phase', '')}: {r['res']} {r['detail']}")
+            if r.get("effect") is False and (r["entry"] in ALWAYS_EFFECT or r["tpl"] in IN_PHASE.get((r["entry"], r.get("phase")), [])):
+                raise vlib.ToolError(f"genuine {r['tpl']} has no effect on {r['entry']} in phase {r.get('phase')}: {r.get('note')}")
             stats["tpl_seen"].add((r["entry"], r["tpl"], r.get("phase")))
             stats["templates"] = len(stats["tpl_seen"])
     seen = set()
